@@ -212,13 +212,25 @@ def rule_dedupe(check):
     from ..trav import AdtGraph, Traversal
 
     graph = AdtGraph(prog.adts)
+    named = {}
     for f in overrides_of(prog, LV):
         if f.name not in ("visit_var_declarators", "visit_object_lit"):
             continue
+        named.setdefault(f.name, 0)
+        # the named occurrence: add_literal(.., Some(<name>)) somewhere in the override
+        somes = 0
+        for n in hir.calls_in(f.body, name="add_literal"):
+            a = hir.peel(hir.call_args(n)[-1])
+            if a.get("k") == "Call" and (hir.peel(a["f"]).get("res", {}).get("ctor_path") or "").split("::")[-1] == "Some":
+                somes += 1
+            elif hir.local_of(a) is not None:
+                somes += 1
+        check.expect(somes >= 1, R, "%s/named/%s" % (R, f.name), hir.loc(f.rec), "%s records the literal together with the name it initialises" % f.name, "%s no longer records the initialised variable / property name with the literal" % f.name)
         tr = Traversal(prog, f, graph)
         for p in tr.paths(f.body, tr.initial_env()):
             adds = [i for i, e in enumerate(p.effects) if e["kind"] == "call" and e["name"] == "add_literal"]
             vis = [i for i, e in enumerate(p.effects) if e["kind"] in ("children", "with")]
+            named[f.name] = named.get(f.name, 0) + len(adds)
             if adds and vis:
                 check.expect(max(adds) < min(vis), R, "%s/order/%s" % (R, f.name), hir.loc(f.rec), "named occurrence recorded before the generic visit", "%s visits the children before recording the named occurrence: the name is lost" % f.name)
 
